@@ -4,7 +4,7 @@
 // and every iterator yields exactly the declared number of points.
 //@target src/e57_reader.rs
 //@check reads_are_history_independent serves=C17,C09,C03,C05 fn=E57Reader::{pointcloud_raw,pointcloud_simple,blob,xml} note="BOUNDED: one file with two point clouds (5000 points with sub-byte, 11-bit and 61-bit integer records plus doubles; 33 points) and a 3000-byte blob; 6 interleavings of partly consumed raw / simple iterators, blob reads and full reads; compared with a fresh reader per operation"
-//@check corrupted_pages_never_yield_other_data serves=C07,C08,C17 fn=PagedReader::{read_page,read},E57Reader::{new,validate_crc,pointcloud_raw} note="BOUNDED: the same file with one bit flipped at 5 positions (payload start/middle/end, first and last checksum byte) of EVERY page; E57Reader::new, raw reads of both clouds and validate_crc: validate_crc must fail, every other operation fails or returns exactly the result of the intact file; a failed read followed by a read of another cloud still returns the intact result; no panic"
+//@check corrupted_pages_never_yield_other_data serves=C07,C08,C17 fn=PagedReader::{read_page,read},E57Reader::{new,validate_crc,pointcloud_raw} note="BOUNDED: the same file with one bit flipped at 5 positions (payload start/middle/end, first and last checksum byte) of EVERY page, with the stored checksum byte-reversed, and with an altered payload re-sealed in the wrong byte order; E57Reader::new, raw reads of both clouds and validate_crc: validate_crc must fail, every other operation fails or returns exactly the result of the intact file; a failed read followed by a read of another cloud still returns the intact result; no panic"
 //@check unusual_packetisation_decodes serves=C03,C08,C09,C12 fn=QueueReader::{advance,parse_byte_streams,pop_point},ByteStreamReadBuffer::{append,extract},BitPack::unpack_* note="BOUNDED: one cloud of 257 points (f64, f32, 10-bit scaled integer, 0-bit integer, 61-bit integer) encoded by an INDEPENDENT encoder in this test (own bit packer, packets, pages, CRC-32C) in 7 packetisations: one packet; 1 byte per stream per packet; chunks of 3/5/7/11 bytes (values straddle packets); one stream ahead of the others (empty streams in packets); index packet first; ignored packets of 4, 1000 and 2044 bytes in between (straddling pages); all of it behind a 1016-byte ignored packet; raw read-back compared"
 //@check crafted_packets_terminate serves=C09,C08 fn=QueueReader::advance,PointCloudReaderRaw::next,PointCloudReaderSimple::next note="BOUNDED: 4 crafted files with valid page checksums (ignored / index packet whose declared length runs past the end of the file; data packet whose stream sizes exceed the packet; section that ends in the middle of a packet header): every iterator step returns within 20 s (watchdog thread), with an error or the end of the iteration, never a panic"
 //@module
@@ -137,10 +137,25 @@
         let pages = bytes.len() / 1024;
         assert_eq!(bytes.len() % 1024, 0);
         for page in 0..pages {
-            for pos in [0usize, 511, 1019, 1020, 1023] {
-                let what = format!("bit flipped in page {page} at byte {pos}");
+            for pos in [0usize, 511, 1019, 1020, 1023, 5000, 5001] {
                 let mut bad = bytes.clone();
-                bad[page * 1024 + pos] ^= 0x10;
+                let what;
+                if pos == 5000 {
+                    // the stored checksum with its four bytes reversed (little endian instead of big endian)
+                    what = format!("checksum bytes of page {page} reversed");
+                    bad[page * 1024 + 1020..page * 1024 + 1024].reverse();
+                    if bad == bytes { continue; }
+                } else if pos == 5001 {
+                    // altered payload, re-sealed with the checksum stored in the WRONG byte order
+                    what = format!("page {page}: payload altered and re-sealed with a little-endian checksum");
+                    bad[page * 1024 + 300] ^= 0x01;
+                    let crc = crc32c_bitwise(&bad[page * 1024..page * 1024 + 1020]);
+                    if crc.to_le_bytes() == crc.to_be_bytes() { continue; }
+                    bad[page * 1024 + 1020..page * 1024 + 1024].copy_from_slice(&crc.to_le_bytes());
+                } else {
+                    what = format!("bit flipped in page {page} at byte {pos}");
+                    bad[page * 1024 + pos] ^= 0x10;
+                }
                 assert!(E57Reader::validate_crc(Cursor::new(bad.clone())).is_err(), "validate_crc must fail: {what}");
                 let mut r = match E57Reader::new(Cursor::new(bad.clone())) {
                     Ok(r) => r,
@@ -339,6 +354,7 @@
                         let mut p = vec![0u8; *len];
                         p[2..4].copy_from_slice(&((*len - 1) as u16).to_le_bytes());
                         p[4..6].copy_from_slice(&(((*len - 16) / 16) as u16).to_le_bytes());
+                        p[6] = if *len > 16 { 1 } else { 0 }; // index level: upper-level index packets are legal
                         for b in p[16..].iter_mut() {
                             *b = 0xEE;
                         }
